@@ -510,6 +510,8 @@ def recognition_premises(ctx, g, prefix):
     G12 is taken without its `string alternative required` half (that half is the known finding D15, reported
     under C10 / C11); with a string alternative present, G12b still demands char literals."""
     g1_whitespace(ctx, g, prefix)
+    g2_comment(ctx, g, prefix)
+    g3_comment_eoi(ctx, g, prefix)
     g4_non_atomic(ctx, g, prefix)
     g5_name_atomic(ctx, g, prefix)
     g7_literal_mandatory(ctx, g, prefix)
